@@ -11,7 +11,7 @@ import (
 	"time"
 
 	_ "github.com/scigolib/hdf5/verifsim/e1"
-	_ "github.com/scigolib/hdf5/verifsim/e2"
+	"github.com/scigolib/hdf5/verifsim/e2"
 	"github.com/scigolib/hdf5/verifsim/harness"
 	"github.com/scigolib/hdf5/verifsim/trace"
 )
@@ -41,6 +41,22 @@ func main() {
 			debug.SetMaxStack(256 << 20)
 		}
 		os.Exit(harness.Replay(fs.Arg(0)))
+	case "materialize":
+		if len(os.Args) < 4 {
+			os.Exit(2)
+		}
+		t, err := trace.Load(os.Args[2])
+		if err != nil {
+			fmt.Fprintln(os.Stderr, err)
+			os.Exit(2)
+		}
+		dir := harness.ScratchDir("mat")
+		defer os.RemoveAll(dir)
+		if err := e2.Materialize(t, dir, os.Args[3]); err != nil {
+			fmt.Fprintln(os.Stderr, err)
+			os.Exit(2)
+		}
+		os.Exit(0)
 	case "mkknown":
 		os.Exit(cmdMkKnown(os.Args[2:]))
 	case "gen":
@@ -63,6 +79,7 @@ func cmdWorker(args []string) int {
 	runs := fs.Int("runs", 0, "override total runs")
 	from := fs.Int("from", 0, "first absolute run index of this segment")
 	progress := fs.String("progress", "", "progress announcement file")
+	skipsub := fs.Int("skipsub", 0, "sub-runs of the first run already executed")
 	mem := fs.Int("mem", 0, "address-space limit in MiB (0 = none)")
 	_ = fs.Parse(args)
 	if *mem > 0 {
@@ -84,7 +101,7 @@ func cmdWorker(args []string) int {
 		fmt.Println(string(b))
 	}
 	s := harness.RunWorker(p, harness.WorkerArgs{Tier: *tier, Seed: *seed, Worker: *w, Workers: *n, Known: ks, Dir: dir,
-		Deadline: time.Duration(*deadline) * time.Second, Runs: *runs, FromIdx: *from, Progress: *progress, Emit: emit})
+		Deadline: time.Duration(*deadline) * time.Second, Runs: *runs, FromIdx: *from, SkipSub: *skipsub, Progress: *progress, Emit: emit})
 	emit(s)
 	return 0
 }
